@@ -151,6 +151,41 @@ func genC09(seed uint64, tier string) *plan.Plan {
 		}
 		ph.Clients = append(ph.Clients, sc)
 	}
+	// Missed backup: with two replicas, the ttl of a key is set (Expire, or Put with PX) while the
+	// owner cannot reach the backup - the write quorum of 1 is met, the backup keeps the older copy
+	// without, or with a later, deadline. After the deadline no path may return the key.
+	var missed *plan.Phase
+	if n >= 2 && r.Bool(300) {
+		p.Cluster.ReplicaCount = 2
+		p.Cluster.ClientReadTimeoutMs = 500
+		sc := plan.Script{ID: 8, Kind: "ctl"}
+		for i, nk := 0, r.Range(2, 6); i < nk; i++ {
+			key := fmt.Sprintf("m%d", i)
+			// (go-redis keeps answering with the last dial error for up to a second after a link came
+			// back: the deadline lies well behind that)
+			ttl := int64(r.Range(1400, 2500))
+			first := plan.Op{K: "put", Key: key, Val: fmt.Sprint(10 + i), Tag: "cc"}
+			if r.Bool(400) {
+				first.PX = 60000
+			}
+			sc.Ops = append(sc.Ops, first, plan.Op{K: "ctl.cut_backups", Key: key, Count: 1})
+			var set plan.Op
+			if r.Bool(600) {
+				set = plan.Op{K: "expire", Key: key, Dur: ttl, Tag: Pick(r, "embo", "cc", "rawo")}
+			} else {
+				set = plan.Op{K: "put", Key: key, Val: fmt.Sprint(50 + i), PX: ttl, Tag: Pick(r, "embo", "cc", "rawo")}
+			}
+			sc.Ops = append(sc.Ops, set)
+			ref := len(sc.Ops) - 1
+			sc.Ops = append(sc.Ops, plan.Op{K: "ctl.heal_all"},
+				plan.Op{K: "ctl.sleep_rel", Ref: ref, Dur: ttl + int64(Pick(r, 2, 5, 30))})
+			probe := plan.Op{K: Pick(r, "get", "get", "getput", "incr"), Key: key, Val: "99", Delta: 1}
+			pickEntry(r, &probe)
+			sc.Ops = append(sc.Ops, probe, plan.Op{K: "get", Key: key, Tag: "cc"})
+		}
+		// (its own phase: the cut link must not disturb the other chains)
+		missed = &plan.Phase{Name: "missed-backup", Clients: []plan.Script{sc}}
+	}
 	// Rewrite-after-expiry: many keys with the same short ttl are rewritten (plain Put, Put with a
 	// new ttl, NX, Incr, GetPut) in the tenths of a second after they expired, i.e. while background
 	// eviction is visiting them; every rewritten key must still be there afterwards.
@@ -202,7 +237,10 @@ func genC09(seed uint64, tier string) *plan.Plan {
 			sc.Ops = append(sc.Ops, op)
 		}
 		ph.Clients = append(ph.Clients, sc)
-		p.Phases = []plan.Phase{ph}
+	}
+	p.Phases = []plan.Phase{ph}
+	if missed != nil {
+		p.Phases = append(p.Phases, *missed)
 	}
 	return p
 }
